@@ -102,10 +102,13 @@ Print Assumptions C14_no_identical_inflight_questions.
 (** Two structural facts of the source the transition system relies on, re-read from the Go AST on every run:
     partitionLocker.lock re-checks its condition in a loop around Cond.Wait (so [ALock] is only enabled when the key
     is free), and processJob - the only place a request is run - is called by the pool workers only (so requests in
-    flight are bounded by the pool: [C14_inflight_bound]). *)
+    flight are bounded by the pool: [C14_inflight_bound]); and queryCache.get / set / gc each hold the cache mutex for
+    their whole body (one Lock, one deferred Unlock, nothing else), which is what makes the cache part of [ACheck],
+    [AEnd] and [AGc] ATOMIC actions.  That atomicity is needed: see [C14_gc_atomicity_necessary]. *)
 Theorem C14_source_structure :
-  Gen.C14.lock_wait_rechecked_in_loop = true /\ Gen.C14.process_job_callers = ["queryWorker"%string].
-Proof. split; reflexivity. Qed.
+  Gen.C14.lock_wait_rechecked_in_loop = true /\ Gen.C14.process_job_callers = ["queryWorker"%string] /\
+  Gen.C14.cache_single_critical_section = [("gc", true); ("get", true); ("set", true)]%string.
+Proof. repeat split; reflexivity. Qed.
 Print Assumptions C14_source_structure.
 
 (** ** served_once: within a cache lifetime (a run without eviction) a cache key has at most one successful
@@ -282,6 +285,19 @@ Proof.
   repeat split; auto. now apply C14_inflight_bound.
 Qed.
 Print Assumptions C14_timed_invariants.
+
+(** Why gc must be one critical section: if gc computed its survivors from a snapshot [st0] and installed them after a
+    concurrent cache.set (so that the set lands in the map that is thrown away), the answer just stored is lost - the
+    next lookup of the key misses and the request goes to the server a second time within the answer's lifetime
+    (sequential cache model, clock 0..1, TTL 300, maxStale 3600: nothing is expired or stale). *)
+Theorem C14_gc_atomicity_necessary :
+  let st0 := cache_set 0 1 11 300 cache_empty in            (* key 1 cached *)
+  let st1 := cache_set 1 2 22 300 st0 in                    (* a worker stores key 2 while gc is between snapshot and swap *)
+  let swapped := cache_gc 3600 1 st0 in                     (* gc installs the survivors of its SNAPSHOT *)
+  fst (cache_get 1 2 st1) = Some 22%Z /\ fst (cache_get 1 2 swapped) = None /\
+  fst (cache_get 1 2 (cache_gc 3600 1 st1)) = Some 22%Z.    (* the atomic gc of the model keeps it *)
+Proof. vm_compute. repeat split. Qed.
+Print Assumptions C14_gc_atomicity_necessary.
 
 (** ** Non-vacuity: three callers (two asking the same question under the same lock key, one another
     question), two workers; the second caller of the shared question is served from the cache. *)
